@@ -692,4 +692,27 @@ theorem cancel_then_trykill (c : Cfg) (hf : c.fut = .pending) (hh : FutHook c) :
   unfold tryKilling SameButFut
   rw [e]; rfl
 
+/-- the `try_killing` callback, whenever it runs on a live process, does what `kill()` does: outside a step the process is
+KILLED (EXCEPTED if entering KILLED fails), inside a step the kill is the pending interrupt action of that step -/
+theorem trykill_kills (c : Cfg) (hko : KillingOk c) (hl : terminal c.st.label = false) (hr : Cb.trykill ∈ c.ready) :
+    (c.stepping = false → (tickCb c .trykill).st.label = .killed ∨ (tickCb c .trykill).st.label = .excepted) ∧
+    (c.stepping = true → ∃ k, Pending k (tickCb c .trykill)) := by
+  have hc : c.ready.contains Cb.trykill = true := by simpa using hr
+  have ht : tickCb c .trykill = tryKilling { c with ready := c.ready.erase .trykill } := by
+    unfold tickCb; simp only [hc, if_true]
+  have hko0 : KillingOk { c with ready := c.ready.erase .trykill } := by
+    intro i hi
+    rcases hko i hi with h | h | h
+    · exact Or.inl h
+    · exact Or.inr (Or.inl h)
+    · exact Or.inr (Or.inr (h.keep ⟨rfl, rfl, rfl, rfl, rfl, rfl⟩))
+  have hk := always_killable_of { c with ready := c.ready.erase .trykill } hko0 hl
+  rw [ht]
+  unfold tryKilling
+  constructor
+  · intro hs; exact (hk.1 hs).2
+  · intro hs
+    obtain ⟨k, _, hp⟩ := hk.2 hs
+    exact ⟨k, hp.keep ⟨rfl, rfl, rfl, rfl, rfl, rfl⟩⟩
+
 end PMF
